@@ -54,11 +54,15 @@ def surface_flux(world):
     return rs.rand(d["ny"], d["nx"])
 
 
-def gen_world(rng):
+def gen_world(rng, large=False):
     nt = rng.choice([1, 2, 2, 3, 3])
     ns = rng.choice([1, 2, 3, 4])
-    names = rng.sample(["zeta", "alpha", "mid", "Tower-10", "Tower-9", "b"], nt)
-    heights = rng.sample([3.0, 4.0, 5.0, 6.5], nt)
+    if large:
+        # beyond the small range of the quantifier: more towers, longer series
+        nt = rng.choice([4, 5, 6])
+        ns = rng.choice([5, 6, 8])
+    names = rng.sample(["zeta", "alpha", "mid", "Tower-10", "Tower-9", "b", "Tower-1", "a"], nt)
+    heights = rng.sample([3.0, 4.0, 5.0, 6.5, 7.0, 8.5], nt)
     towers = []
     for k in range(nt):
         towers.append({"name": names[k], "lat": 50.0 + rng.choice([0.0, 1e-4, 2.5e-4]), "lon": 11.0 + rng.choice([0.0, 1.5e-4, 3e-4]), "z_m": heights[k]})
@@ -116,7 +120,7 @@ def gen_world(rng):
         # no diffusion along the flow: needs a wind that is not axis aligned
         wd = met["wind_dir"]
         met["wind_dir"] = [w + 17.0 for w in wd] if isinstance(wd, list) else wd + 17.0
-    par = {"max_workers": rng.choice([1, 2, 3, 4, 5]), "use_cache": rng.random() < 0.5}
+    par = {"max_workers": rng.choice([1, 2, 3, 4, 5] + ([7, 8] if large else [])), "use_cache": rng.random() < 0.5}
     if (colocated or repeated) and footprint and rng.random() < 0.6:
         # two tasks that want the same cache entry: make sure the cache is on
         par["use_cache"] = True
@@ -128,14 +132,15 @@ def gen_world(rng):
 def generate(seed, tier="quick"):
     gen = stream(seed, "gen")
     sch = stream(seed, "sched")
-    world = gen_world(gen)
+    large = stream(seed, "size").random() < (0.2 if tier == "thorough" else 0.04)
+    world = gen_world(gen, large)
     ops = []
     nops = gen.choice([1, 1, 2, 2, 3])
     for k in range(nops):
         r = gen.random()
         if r < 0.70 or (k == nops - 1 and not any(o["op"] == "parallel" for o in ops) and gen.random() < 0.6):
             ops.append({"op": "parallel", "strategy": gen.choice(["towers", "time", "both"]),
-                        "max_workers": gen.choice([None, 1, 2, 3, 4, 5])})
+                        "max_workers": gen.choice([None, 1, 2, 3, 4, 5] + ([6, 8] if large else []))})
         elif r < 0.85:
             ops.append({"op": "multitower", "flux": gen.random() < 0.4})
         else:
@@ -164,7 +169,7 @@ def generate(seed, tier="quick"):
     mode = sch.choice(["pct", "pct", "pct", "uniform", "uniform", "uniform", "uniform", "bursty", "bursty", "bursty"])
     nchg = sch.choice([0, 1, 2, 3])
     sched = {"mode": mode, "pct_changes": sorted(sch.randrange(1, 120) for _ in range(nchg)),
-             "stalls": [[sch.randrange(0, 80), sch.randrange(0, 5), sch.choice([5, 20, 80])] for _ in range(sch.choice([0, 1, 1, 2, 3]))]}
+             "stalls": [[sch.randrange(0, 80), sch.randrange(0, 8 if large else 5), sch.choice([5, 20, 80])] for _ in range(sch.choice([0, 1, 1, 2, 3]))]}
     return {"engine": "poolsim", "property": PROP, "seed": seed, "tier": tier, "world": world, "parent": parent, "ops": ops, "sched": sched}
 
 
